@@ -2,6 +2,9 @@ SPECIFICATION SGSpec
 CONSTANTS
   MaxServices = 3
   Outcomes = {"nil", "err", "panic"}
+  PlainKinds = {"nil", "err", "panic"}
+  FullUpTo = 100
+  PanicKinds = {"panic", "panicerr", "panicdl", "panicnil"}
   OtherSigs = {"HUP", "USR1"}
   ShutSigs = {"INT", "QUIT", "TERM"}
   MaxPre = 2
